@@ -6,6 +6,6 @@ D=$(mktemp -d /tmp/repo-mut-XXXX)
 cp -a /repo/. $D/
 if [ "$P" != "-" ]; then (cd $D && git apply "$P"); fi
 cd /verif
-VERIF_EVIDENCE_DIR=$D/.verif-evidence VERIF_REPLAY_DIR=$D/.verif-replays PYNENC_REPO=$D PYTHONPATH=/verif:$D PYNENC_VERIF=1 PYTHONDONTWRITEBYTECODE=1 /venv/bin/python -m harness.run $C --tier $T 2>&1 | tail -${LINES_OUT:-8} || true
-rm -rf $D; (cd /verif && PYTHONPATH=/verif:/repo /venv/bin/python -m harness.regen >/dev/null 2>&1) || true
-# restore Gen files for the real tree
+cp -a /verif/lean $D/.verif-lean
+VERIF_LEAN_DIR=$D/.verif-lean VERIF_EVIDENCE_DIR=$D/.verif-evidence VERIF_REPLAY_DIR=$D/.verif-replays PYNENC_REPO=$D PYTHONPATH=/verif:$D PYNENC_VERIF=1 PYTHONDONTWRITEBYTECODE=1 /venv/bin/python -m harness.run $C --tier $T 2>&1 | tail -${LINES_OUT:-8} || true
+rm -rf $D
